@@ -1,20 +1,19 @@
 #!/bin/bash
-# tools/try_all.sh <prop>...  : run every seed under /tmp/seedout/<prop>/m* against its own property's check
-mkdir -p /tmp/seedres
+# tools/try_all.sh <prop>...  : run every seed under $SEEDSRC/<prop>/m* against its own property's check
+SRC=${SEEDSRC:-/tmp/seedout}; RES=${SEEDRES:-/tmp/seedres}; mkdir -p $RES
 for p in "$@"; do
-  for d in ${SEEDSRC:-/tmp/seedout}/$p/m*; do
+  for d in $SRC/$p/m*; do
     [ -f $d/patch.diff ] || continue
     n=$(basename $d)
-    /verif/tools/try_seed.py $d $p > ${SEEDRES:-/tmp/seedres}/$p-$n.json 2>${SEEDRES:-/tmp/seedres}/$p-$n.err
-    python3 - $p $n <<'PY'
+    /verif/tools/try_seed.py $d $p > $RES/$p-$n.json 2>$RES/$p-$n.err
+    python3 -c "
 import json,sys
-p,n=sys.argv[1:]
+p,n,res=sys.argv[1:]
 try:
-    r=json.load(open(f'${SEEDRES:-/tmp/seedres}/{p}-{n}.json'))
-    c=r['checks'].get(p,{})
+    r=json.load(open(f'{res}/{p}-{n}.json')); c=r['checks'].get(p,{})
     print(p,n,'tests_pass=',r.get('tests_pass'),'demo_ok=',r.get('demo_ok'),'rc=',c.get('rc'),'keys=',c.get('keys'),c.get('inconclusive'))
 except Exception as e:
     print(p,n,'ERROR',e)
-PY
+" $p $n $RES
   done
 done
